@@ -246,11 +246,101 @@ with scan_e (names : list term) (pushed : list var) (e : expr) {struct e} : N :=
   | ECmp _ a b | EAnd a b | EOr a b | ECoalesce a b => scan_e names pushed a |>| scan_e names pushed b
   | ENot a | EIn _ a _ => scan_e names pushed a
   | EIf c a b => scan_e names pushed c |>| scan_e names pushed a |>| scan_e names pushed b
-  | EExists _ p => scan names true pushed p
+  | EExists _ p =>
+      (* the specification lets the top filter of an EXISTS pattern see the current
+         solution; rdflib does so only when translateExists marked it *)
+      (match p with Filter false _ _ _ => 7 | _ => 0 end) |>| scan names true pushed p
   | _ => 0
   end.
 
-(* F-C04-9 is checked where a comparison is evaluated (Filter, Extend, LeftJoin: a
-   compared variable that the pattern at hand may bind to a BIND-made boolean);
-   C04_pushdown shows that this local form is enough *)
-Definition kf (c : case) : N := scan (map fst (ds_named (c_ds c))) false [] (c_alg c).
+(* ---- F-C04-9, the part that depends on the DATA: literals of a second kind ---- *)
+(* the constants a query compares, and the values its VALUES tables hold *)
+Fixpoint cmp_consts (p : alg) : list term :=
+  match p with
+  | BGP _ => []
+  | Values rows => flat_map (map snd) rows
+  | Join _ a b | Union a b | Minus a b => cmp_consts a ++ cmp_consts b
+  | LeftJoin _ a b e => cmp_consts a ++ cmp_consts b ++ cmp_consts_e e
+  | Filter _ _ e q => cmp_consts_e e ++ cmp_consts q
+  | Extend _ q _ e => cmp_consts_e e ++ cmp_consts q
+  | Project q _ | Graph _ q | Distinct q => cmp_consts q
+  end
+with cmp_consts_e (e : expr) : list term :=
+  match e with
+  | ECon t => [t]
+  | ECmp _ a b | EAnd a b | EOr a b | ECoalesce a b => cmp_consts_e a ++ cmp_consts_e b
+  | ENot a => cmp_consts_e a
+  | EIn _ a cs => cmp_consts_e a ++ cs
+  | EIf c a b => cmp_consts_e c ++ cmp_consts_e a ++ cmp_consts_e b
+  | EExists _ p => cmp_consts p
+  | _ => []
+  end.
+(* the variables a pattern can bind to a literal: object positions of triple
+   patterns, VALUES columns, BIND targets, GRAPH variables (graph names are data
+   terms here) - also inside EXISTS patterns *)
+Fixpoint lit_vars (p : alg) : list var :=
+  match p with
+  | BGP ts => flat_map (fun t : tpat => match snd t with Vr v => [v] | Tm _ => [] end) ts
+  | Values rows => flat_map (map fst) rows
+  | Join _ a b | Union a b | Minus a b => lit_vars a ++ lit_vars b
+  | LeftJoin _ a b e => lit_vars a ++ lit_vars b ++ lit_vars_e e
+  | Filter _ _ e q => lit_vars_e e ++ lit_vars q
+  | Extend _ q v e => v :: lit_vars_e e ++ lit_vars q
+  | Project q _ | Distinct q => lit_vars q
+  | Graph (Vr v) q => v :: lit_vars q
+  | Graph (Tm _) q => lit_vars q
+  end
+with lit_vars_e (e : expr) : list var :=
+  match e with
+  | ECmp _ a b | EAnd a b | EOr a b | ECoalesce a b => lit_vars_e a ++ lit_vars_e b
+  | ENot a | EIn _ a _ => lit_vars_e a
+  | EIf c a b => lit_vars_e c ++ lit_vars_e a ++ lit_vars_e b
+  | EExists _ p => lit_vars p
+  | _ => []
+  end.
+(* a comparison (= != < >, IN) that can meet literals of two kinds: an operand is a
+   variable of [L], or not atomic, or both operands are constants.  (A variable
+   outside [L] holds an IRI: against any literal = != are RDFterm-equality and
+   < > raise, in rdflib as in 17.3.) *)
+Definition risky_opnd (L : list var) (e : expr) : bool :=
+  match e with EVar v => memv v L | ECon _ => false | _ => true end.
+Definition is_con (e : expr) : bool := match e with ECon _ => true | _ => false end.
+Fixpoint has_cmp_in (L : list var) (p : alg) : bool :=
+  match p with
+  | BGP _ | Values _ => false
+  | Join _ a b | Union a b | Minus a b => has_cmp_in L a || has_cmp_in L b
+  | LeftJoin _ a b e => has_cmp_in L a || has_cmp_in L b || has_cmp_e L e
+  | Filter _ _ e q => has_cmp_e L e || has_cmp_in L q
+  | Extend _ q _ e => has_cmp_e L e || has_cmp_in L q
+  | Project q _ | Graph _ q | Distinct q => has_cmp_in L q
+  end
+with has_cmp_e (L : list var) (e : expr) : bool :=
+  match e with
+  | ECmp _ a b => risky_opnd L a || risky_opnd L b || (is_con a && is_con b) || has_cmp_e L a || has_cmp_e L b
+  | EIn _ a _ => risky_opnd L a || is_con a || has_cmp_e L a
+  | EAnd a b | EOr a b | ECoalesce a b => has_cmp_e L a || has_cmp_e L b
+  | ENot a => has_cmp_e L a
+  | EIf c a b => has_cmp_e L c || has_cmp_e L a || has_cmp_e L b
+  | EExists _ p => has_cmp_in L p
+  | _ => false
+  end.
+Definition has_cmp (p : alg) : bool := has_cmp_in (lit_vars p) p.
+Definition graph_has_bool (g : graph) : bool :=
+  existsb (fun t : triple => let '(a, b, d) := t in negb (nb a && nb b && nb d)) g.
+(* a literal of a second kind (this term model: a boolean next to the integers) is
+   in the data, in a graph name, in a VALUES table or among the compared constants *)
+Definition second_kind (c : case) : bool :=
+  graph_has_bool (ds_default (c_ds c))
+  || existsb (fun ng => negb (nb (fst ng)) || graph_has_bool (snd ng)) (ds_named (c_ds c))
+  || existsb (fun t => negb (nb t)) (cmp_consts (c_alg c)).
+
+(* F-C04-9: (a) locally where a comparison is evaluated (Filter, Extend, LeftJoin: a
+   compared variable that the pattern at hand may bind to a BIND-made boolean) -
+   C04_pushdown_partial shows that this local form is enough when the data holds literals
+   of one kind; (b) the query compares a variable that some pattern of the query can bind to a
+   literal (or two constants, or a compound operand) and the case holds a literal of a
+   second kind: = != < > between literals of different kinds give false / true /
+   an order in rdflib where SPARQL 17.3 raises a type error *)
+Definition kf (c : case) : N :=
+  scan (map fst (ds_named (c_ds c))) false [] (c_alg c)
+  |>| (if has_cmp (c_alg c) && second_kind c then 9 else 0).
